@@ -701,6 +701,12 @@ func ruleC12(c *Ctx) {
 	c.floor("REACHING", 4)
 	checkRotateWindow(c, "TERM")
 	checkBoothScan(c)
+	// the empty string is a legal input (no division by the length, no slice bound below zero)
+	for _, name := range []string{"boothLeastRotation", "RotateSequence"} {
+		if f := c.W.fn("seqhash", name); f != nil {
+			checkPrefix(c, "TERM", f)
+		}
+	}
 }
 
 // checkBoothScan: the shape rules on the least-rotation scan (ORDER-DIR, BYTEWISE, REACHING). C12 owns
